@@ -21,3 +21,4 @@ import SamVerif.Props.C08
 #print axioms SamVerif.Fmt.paren_insensitive
 #print axioms SamVerif.FmtPat.roundtrip_pattern
 #print axioms SamVerif.FmtPat.roundtrip_pattern_side_conditions
+#print axioms SamVerif.FmtLists.trailing_comma_emitted_only_where_accepted
